@@ -908,6 +908,11 @@ func (a *analyzer) analyzeDotimes(node *lisp.LVal, scope *Scope, currentPkg stri
 		a.result.Symbols = append(a.result.Symbols, sym)
 	}
 
+	// The optional result form is evaluated with the loop variable bound
+	if len(bindingList.Cells) > 2 {
+		a.analyzeExpr(bindingList.Cells[2], dotimesScope, currentPkg)
+	}
+
 	// Walk body
 	for i := 2; i < len(node.Cells); i++ {
 		a.analyzeExpr(node.Cells[i], dotimesScope, currentPkg)
